@@ -85,6 +85,14 @@ def parseEv (w : World) (ws : List String) : Option Ev :=
   | ["take", id] => id.toNat?.map .take
   | ["reset", id] => id.toNat?.map .reset
   | ["release"] => some .release
+  | ["wcancel", i, k] =>
+    match i.toNat?, k.toNat? with
+    | some i, some k => some (.wcancel i k)
+    | _, _ => none
+  | ["wdstream", i, k] =>
+    match i.toNat?, k.toNat? with
+    | some i, some k => some (.wdstream i k)
+    | _, _ => none
   | ["spin", i, k] =>
     match i.toNat?, k.toNat? with
     | some i, some k => some (.spin i k)
